@@ -181,6 +181,17 @@ def c06(tier):
             big.append({"cfg": {"k": k, "n": n}, "unit": 1, "mode": "window", "eps": [1, 1000000000], "float": "f64",
                         "xs": shapes(rnd, n, -30, 30, 3 * n + 40), "k": kk, "dense": [[n - 2, n + 3]]})
     run.submit(p3_stream_job, "trend-big", "C06", big)
+    # f32: a level that has drifted far from the first value of the stream, and a jump of 2^25 that then leaves the window
+    f32s = []
+    for k in kinds:
+        for n in (5, 16):
+            f32s.append({"cfg": {"k": k, "n": n}, "unit": 1000, "mode": "window", "eps": [1, 100], "float": "f32",
+                         "xs": [0, 3] + [1500000 + rnd.randint(-300, 300) for _ in range(3 * n + 20)], "k": 1})
+            xs = []
+            while len(xs) < 6 * n + 30:
+                xs += [rnd.randint(1, 9) for _ in range(rnd.randint(n, 2 * n))] + [33554432] + [rnd.randint(1, 9) for _ in range(n + 2)]
+            f32s.append({"cfg": {"k": k, "n": n}, "unit": 1, "mode": "window", "eps": [1, 100], "float": "f32", "xs": xs, "k": 1})
+    run.submit(p3_stream_job, "trend-f32", "C06", f32s)
     run.submit(p3_stream_job, "trend-sweep", "C06", window_sweep(rnd, kinds, lo=-30, hi=30, ns=[n for n in SWEEP_NS if n <= 66]))
     f32_job(run, "C06", cfgs(kinds, [3, 4]), [-2, 0, 1, 3], 6)
     run.submit(p1_job, "trend-negzero", "MC_Def", {"prop": "C06", "cfgs": cfgs(kinds, [3]), "alphabet": [-2, 0, 2147483647, 3], "unit": 1, "maxlen": 6})
@@ -596,6 +607,9 @@ def c07(tier):
         pos = [{"k": "Drawdown"}, {"k": "CenterOfGravity", "n": n}, {"k": "Min", "n": n}, {"k": "Max", "n": n}, sma(n), {"k": "Alma", "n": n}, E]
         run.submit(p1_job, "rng-pos-n%d" % n, "MC_Obs", {"prop": "C07", "cfgs": pos, "alphabet": [1, 3, 10, 11][:len(A)], "unit": 10, "maxlen": L},
                nontrivial_keys=None, view_label=label)
+    # the bounded views over what an inner view delivers (a lagging average, held values): the range is the outer view's own
+    chb = [with_leaf(c, i) for c in bounded(3) if c["k"] not in ("Echo", "Min", "Max", "Sma", "Alma", "PolarizedFractalEfficiency") for i in (sma(3), ema(2), {"k": "Roc", "n": 1})]
+    run.submit(p1_job, "rng-chain", "MC_Obs", {"prop": "C07", "cfgs": chb, "alphabet": [0, 3, 6, 9], "unit": 1, "maxlen": 6}, nontrivial_keys=None, view_label=label)
     run.submit(p1_job, "rng-f32", "MC_Obs", {"prop": "C07", "cfgs": [c for c in bounded(3) if c["k"] != "PolarizedFractalEfficiency"],      # (KF1 is attributed by comparing with the f64 formula value)
                                           "alphabet": [-2, 0, 1, 3], "unit": 1, "maxlen": 6, "float": "f32"}, nontrivial_keys=None, view_label=label)
     run.submit(p1_job, "rng-release", "MC_Obs", {"prop": "C07", "cfgs": bounded(3), "alphabet": [-2, 0, 1, 3], "unit": 1, "maxlen": 6}, profile="release", nontrivial_keys=None, view_label=label)
